@@ -3,7 +3,7 @@ import itertools
 import copy
 from usim import StreamClosed
 from ..run import run_one
-from ..oracles import kernel_health
+from ..oracles import kernel_health, containment
 from .. import faults as F
 from .c04 import ST_op
 
@@ -188,6 +188,7 @@ def check_exec(program, faults=(), hit=None):
         hit |= set(program.get('_hit', ()))
     msgs, multi = channel_model(ctx, program, hit)
     msgs += kernel_health(ctx)
+    msgs += containment(ctx, program)
     if ctx.outcome is not None:
         msgs.append('run() raised %r' % (ctx.outcome,))
     if not any(r[0] == 'finish' and r[1] == 'root' for r in ctx.log):
